@@ -11,6 +11,7 @@ import argparse
 import importlib
 import json
 import multiprocessing as mp
+import multiprocessing.connection
 import os
 import subprocess
 import sys
@@ -62,7 +63,7 @@ def run_case(arg):
 
         to = case.get("timeout_ms", 10000 if tier == "quick" else 60000)
         st = symx.explore(path, timeout_ms=to, prefix=case.get("prefix", ()), max_paths=case.get("max_paths", 200000),
-                          budget_s=case.get("budget_s"))
+                          budget_s=case.get("budget_s", 150 if tier == "quick" else 1500))
         st["functions"] = sorted(funcs)
         st["status"] = "ok"
     except symx.Inconclusive as e:
@@ -71,7 +72,58 @@ def run_case(arg):
         st = dict(status="error", error=f"{type(e).__name__}: {e}", trace=traceback.format_exc()[-3000:])
     st["case"] = case["name"]
     st["case_wall_s"] = round(time.time() - t0, 3)
-    return st
+    return json.loads(json.dumps(st, default=str))  # picklable, JSON-clean
+
+
+def _worker(conn, arg):
+    try:
+        conn.send(run_case(arg))
+    except BaseException as e:  # noqa
+        conn.send(dict(status="error", error=f"worker crashed: {type(e).__name__}: {e}", case=arg[1]["name"], case_wall_s=0))
+    finally:
+        conn.close()
+
+
+def _run_all(pid, cases, tier, jobs):
+    """one forked process per case, at most `jobs` at a time, each under a HARD wall-clock limit
+    (z3 does not always honour its own timeout)."""
+    ctx = mp.get_context("fork")
+    verbose = bool(os.environ.get("VERIF_VERBOSE"))
+    pending = list(cases)
+    running = {}  # conn -> (proc, case, t0, limit)
+    results = []
+    default_budget = 150 if tier == "quick" else 1500
+    while pending or running:
+        while pending and len(running) < jobs:
+            c = pending.pop(0)
+            parent, child = ctx.Pipe(duplex=False)
+            p = ctx.Process(target=_worker, args=(child, (pid, c, tier)))
+            p.start()
+            child.close()
+            running[parent] = (p, c, time.time(), c.get("budget_s", default_budget) * 1.3 + 30)
+        ready = mp.connection.wait(list(running), timeout=1.0)
+        for conn in ready:
+            p, c, t0, lim = running.pop(conn)
+            try:
+                r = conn.recv()
+            except EOFError:
+                r = dict(status="error", error="worker died without a result", case=c["name"], case_wall_s=round(time.time() - t0, 1))
+            p.join()
+            results.append(r)
+            if verbose:
+                print(f"  .. {r['case']}: {r['status']} paths={r.get('paths')} obs={r.get('obligations')} unk={r.get('n_unknown')} cex={len(r.get('cex', []))} "
+                      f"solver={r.get('solver_s')} wall={r['case_wall_s']} {r.get('error', '')}", file=sys.stderr, flush=True)
+        now = time.time()
+        for conn in list(running):
+            p, c, t0, lim = running[conn]
+            if now - t0 > lim:
+                p.kill()
+                p.join()
+                running.pop(conn)
+                results.append(dict(status="inconclusive", error=f"hard wall-clock limit of {lim:.0f}s exceeded (solver did not return)", case=c["name"], case_wall_s=round(now - t0, 1)))
+                if verbose:
+                    print(f"  .. {c['name']}: KILLED after {now - t0:.0f}s", file=sys.stderr, flush=True)
+    return results
 
 
 def replay_real(pid, cex, out_dir, tag):
@@ -134,8 +186,7 @@ def main(argv=None):
     if a.only:
         cases = [c for c in cases if a.only in c["name"]]
     cases.sort(key=lambda c: -c.get("weight", 1))
-    with mp.get_context("fork").Pool(min(a.jobs, max(1, len(cases))), maxtasksperchild=8) as pool:
-        results = pool.map(run_case, [(pid, c, tier) for c in cases], chunksize=1)
+    results = _run_all(pid, cases, tier, a.jobs)
     # ---- merge
     tot = dict(paths=0, aborted=0, obligations=0, nontrivial=0, discharged=0, queries=0, unsat=0, sat=0, n_unknown=0,
                branch_unknown=0, solver_s=0.0)
